@@ -15,8 +15,13 @@
    (if the loop takes the plug only after w1.. have arrived the result is the same: the plug has an
    id of its own and is at the head of the queue).
 
-   REPLACE has no counterpart in Resource/Impl.v's [kind]; the loop of Collection.Pull never looks at
-   the kind of a change, so a REPLACE is carried as KUpdate (old and new value present). *)
+   REPLACE has no counterpart in Resource/Impl.v's [kind] (shared with C03/C04/C08); the loop of
+   Collection.Pull never looks at the kind of a change, so for the held-map model of record a REPLACE is
+   carried as KUpdate (old and new value present).  The ChangeType the subscriber is SENT is modelled on
+   top of that, in this file: [c_forward_held_k] is the same loop on events that carry the merge stage's
+   kind (ADD / UPDATE / REMOVE / REPLACE as numbered by types.ChangeType), hands on that kind unless
+   include rewrote the change into an ADD or a REMOVE, and erases to the model of record
+   (CollLossyProofs.c_forward_held_k_erase). *)
 From SC Require Import Base.Prelude Cmp.Cmp Resource.Impl Resource.Pull.
 From SC Require Excess.Change Excess.MergeExcess.
 
@@ -90,3 +95,42 @@ Definition merged_changes (init : list (string * cval)) (phases : list (list lop
 Definition merged_events (init : list (string * cval)) (phases : list (list lop)) : list (cevent cval) :=
   let ops := List.concat phases in
   map (decode (map fst init ++ map fst ops) (map snd init ++ stored_values ops)) (merged_changes init phases).
+
+(* ---------- the ChangeType of what is delivered: REPLACE as a kind of its own ---------- *)
+Definition kind_code (k : kind) : Z :=
+  match k with KAdd => Change.K_ADD | KUpdate => Change.K_UPDATE | KRemove => Change.K_REMOVE end.
+Definition kind_eqb (a b : kind) : bool :=
+  match a, b with KAdd, KAdd | KUpdate, KUpdate | KRemove, KRemove => true | _, _ => false end.
+(* change.go include rewrites the type only when the inclusion of the item changed (ADD: it came into the
+   included set, REMOVE: it left it); otherwise the change goes out with the type it came with *)
+Definition wire_kind (src : Z) (e : cevent cval) (c : cchange cval) : Z :=
+  if kind_eqb (cc_kind c) (ce_kind e) then src else kind_code (cc_kind c).
+
+Section KindLoop.
+  Variable rmask : Type.
+  Variable r_filter : rmask -> cval -> cval.
+  Variable cmp : option cval -> option cval -> bool.
+  Fixpoint c_forward_held_k (ro : ropts cval rmask) (h : heldmap cval) (evs : list (cevent cval * Z))
+    : list (cchange cval * Z) :=
+    match evs with
+    | [] => []
+    | (e, src) :: r =>
+        match include_gen false false (ro_include ro) (of_event e) with
+        | None => c_forward_held_k ro h r
+        | Some c =>
+            let c' := cc_filter r_filter ro c in
+            let '(send, h') := held_step cmp h c' in
+            if send then (c', wire_kind src e c') :: c_forward_held_k ro h' r else c_forward_held_k ro h' r
+        end
+    end.
+  (* seeds go out as ADD *)
+  Definition pull_collection_held_k (s : cstate cval) (ro : ropts cval rmask) (evs : list (cevent cval * Z))
+    : list (cchange cval * Z) :=
+    let sd := if ro_updates_only ro then [] else seeds r_filter ro (included ro (c_items s)) in
+    map (fun c => (c, Change.K_ADD)) sd ++ c_forward_held_k ro (held_of_seeds sd) evs.
+End KindLoop.
+
+Definition merged_events_k (init : list (string * cval)) (phases : list (list lop)) : list (cevent cval * Z) :=
+  let ops := List.concat phases in
+  map (fun c => (decode (map fst init ++ map fst ops) (map snd init ++ stored_values ops) c, Change.ckind c))
+      (merged_changes init phases).
